@@ -171,6 +171,14 @@ theorem dnsUpdate_eq (w : World) (host : Str) (is4 : Nat) (ttl : Int) (key : Str
       else (remember { w with cache := w.cache.put (updateKey host is4 key) (w.now + ttl) }
               (baseKeyOf (updateKey host is4 key)) (w.now + ttl), true) := rfl
 
+theorem addVerified_spec (w : World) (d : Str) :
+    (addVerified w d).cache = w.cache ∧ (addVerified w d).know = w.know ∧ (addVerified w d).now = w.now ∧
+    (∀ x, x ∈ (addVerified w d).realSet → x = d ∨ x ∈ w.realSet) := by
+  unfold addVerified
+  split
+  · exact ⟨rfl, rfl, rfl, fun x h => Or.inl (by simpa using h)⟩
+  · exact ⟨rfl, rfl, rfl, fun x h => by simpa using h⟩
+
 theorem mem_weaken {T : List (World × Event)} {x y : World × Event} (h : x ∈ T) : x ∈ T ++ [y] :=
   List.mem_append_left _ h
 
@@ -321,8 +329,10 @@ theorem Inv.step {T : List (World × Event)} {w : World} (h : Inv T w) (e : Even
                   · split <;> rfl
                   · rfl
               rw [hl] at this; exact this
-            refine ⟨fun ck od hm => hw1.cache ck od hm, fun bk e hm => hw1.know bk e hm, fun d' hm => ?_⟩
-            rcases List.mem_cons.1 hm with rfl | hm
+            obtain ⟨ac, ak, an, ar⟩ := addVerified_spec w1 d
+            refine ⟨fun ck od hm => by rw [ac] at hm; rw [an]; exact hw1.cache ck od hm,
+              fun bk e hm => by rw [ak] at hm; rw [an]; exact hw1.know bk e hm, fun d' hm => ?_⟩
+            rcases ar d' hm with rfl | hm
             · refine ⟨_, mem_last, ans, rfl, by rw [← hnb1]; exact hnb, ?_, ?_⟩
               · simp only [probeResult, ← hnb1]
                 have b2 : ∀ a b : Bool, ¬((!a && !b) = true) → (a || b) = true := by decide
@@ -476,7 +486,10 @@ theorem probe_know (w : World) (d : Str) (ans : List Ans) :
     · exact s
     · split
       · exact s
-      · split <;> exact s
+      · split
+        · exact s
+        · obtain ⟨_, ak, an, _⟩ := addVerified_spec w1 d
+          exact ⟨by rw [ak]; exact s.1, by rw [an]; exact s.2⟩
 
 theorem Holds.step {w : World} {bk : Str} {od : Int} (h : Holds w bk od) (e : Event)
     (hk : keepsFamily bk e) : Holds (step w e) bk od := by
@@ -554,6 +567,147 @@ theorem dnsUpdate_holds (w : World) (host : Str) (is4 : Nat) (ttl : Int) (key : 
       · exact Or.inl ⟨_, Assoc.get_put_self _ _ _, Int.le_refl _⟩
       · rename_i hlt
         exact Or.inl ⟨cur, hg, by omega⟩
+
+/-! ## the verified set never holds more names than the filter is sized for -/
+
+/-- same verified set and insertion counter -/
+def SameReal (w w' : World) : Prop := w'.realSet = w.realSet ∧ w'.realAdds = w.realAdds
+
+theorem SameReal.trans {a b c : World} (h1 : SameReal a b) (h2 : SameReal b c) : SameReal a c :=
+  ⟨h2.1.trans h1.1, h2.2.trans h1.2⟩
+
+theorem hasKnowledge_sameReal (w : World) (k : Str) : SameReal w (hasKnowledge w k).1 := by
+  unfold hasKnowledge; split
+  · exact ⟨rfl, rfl⟩
+  · split
+    · exact ⟨rfl, rfl⟩
+    · split <;> exact ⟨rfl, rfl⟩
+
+theorem lookupReal_sameReal (w : World) (d : Str) : SameReal w (lookupReal w d).1 := by
+  unfold lookupReal; split
+  · exact ⟨rfl, rfl⟩
+  · split
+    · split <;> exact ⟨rfl, rfl⟩
+    · exact ⟨rfl, rfl⟩
+
+theorem decideMode_sameReal (w : World) (ob : Nat) (dst : Dst) (d : Str) : SameReal w (decideMode w ob dst d).1 := by
+  unfold decideMode
+  split
+  · split
+    · exact ⟨rfl, rfl⟩
+    · split
+      · exact ⟨rfl, rfl⟩
+      · have s1 := hasKnowledge_sameReal w (cacheKey d dst.is4)
+        rcases hk : hasKnowledge w (cacheKey d dst.is4) with ⟨w1, k⟩
+        rw [hk] at s1
+        simp only []
+        split
+        · exact s1
+        · have s2 := lookupReal_sameReal w1 d
+          rcases hl : lookupReal w1 d with ⟨w2, known, real⟩
+          rw [hl] at s2
+          simp only []
+          split
+          · split <;> exact s1.trans s2
+          · exact s1.trans s2
+    · exact ⟨rfl, rfl⟩
+    · exact ⟨rfl, rfl⟩
+  · exact ⟨rfl, rfl⟩
+
+theorem remember_sameReal (w : World) (bk : Str) (e : Int) : SameReal w (remember w bk e) := by
+  unfold remember; split
+  · exact ⟨rfl, rfl⟩
+  · split
+    · exact ⟨rfl, rfl⟩
+    · split <;> exact ⟨rfl, rfl⟩
+
+theorem syncKnow_sameReal (w : World) (bk : Str) : SameReal w (syncKnow w bk) := by
+  unfold syncKnow; simp only []; split <;> exact ⟨rfl, rfl⟩
+
+theorem forget_sameReal (w : World) (ck : Str) (dl : Int) : SameReal w (forget w ck dl) := by
+  unfold forget; simp only []; split
+  · exact ⟨rfl, rfl⟩
+  · split
+    · exact ⟨rfl, rfl⟩
+    · split
+      · exact ⟨rfl, rfl⟩
+      · exact syncKnow_sameReal w _
+
+theorem dnsRestore_sameReal : ∀ (es : List (Str × Int)) (w : World), SameReal w (dnsRestore w es)
+  | [], _ => ⟨rfl, rfl⟩
+  | (ck, od) :: es, w => by
+    show SameReal w (dnsRestore (remember { w with cache := w.cache.put ck od } (baseKeyOf ck) od) es)
+    have a : SameReal w { w with cache := w.cache.put ck od } := ⟨rfl, rfl⟩
+    exact (a.trans (remember_sameReal _ _ _)).trans (dnsRestore_sameReal es _)
+
+/-- the size bound of the verified set -/
+def Bounded (w : World) : Prop := w.realSet.length ≤ w.realAdds ∧ w.realAdds ≤ realCap
+
+theorem Bounded.of_same {w w' : World} (h : Bounded w) (s : SameReal w w') : Bounded w' := by
+  unfold Bounded; rw [s.1, s.2]; exact h
+
+theorem addVerified_bounded {w : World} (h : Bounded w) (d : Str) : Bounded (addVerified w d) := by
+  unfold addVerified Bounded at *
+  split
+  · simp [realCap]
+  · rename_i hlt
+    simp only [List.length_cons]
+    omega
+
+theorem Bounded.step {w : World} (h : Bounded w) (e : Event) : Bounded (step w e) := by
+  cases e with
+  | setMode m => exact h.of_same ⟨rfl, rfl⟩
+  | setBoot n => exact h.of_same ⟨rfl, rfl⟩
+  | advance ns => exact h.of_same ⟨rfl, rfl⟩
+  | hasKnow n is4 => exact h.of_same (hasKnowledge_sameReal w _)
+  | choose ob dst d =>
+    show Bounded (chooseDialTarget w ob dst d).1
+    rw [chooseDialTarget_eq]; simp only []
+    split <;> exact h.of_same (decideMode_sameReal w ob dst d)
+  | dnsUpdate host q ttl key =>
+    show Bounded (dnsUpdate w host q ttl key).1
+    rw [dnsUpdate_eq]
+    split
+    · exact h
+    · exact h.of_same (SameReal.trans (b := { w with cache := w.cache.put (updateKey host q key) (w.now + ttl) })
+        ⟨rfl, rfl⟩ (remember_sameReal _ _ _))
+  | dnsRemove ck =>
+    show Bounded (dnsRemove w ck)
+    unfold dnsRemove
+    split
+    · exact h
+    · exact h.of_same (SameReal.trans (b := { w with cache := w.cache.del ck }) ⟨rfl, rfl⟩ (forget_sameReal _ _ _))
+  | dnsRemoveFamily bk =>
+    show Bounded (dnsRemoveFamily w bk)
+    unfold dnsRemoveFamily
+    split
+    · exact h
+    · exact h.of_same (SameReal.trans (b := { w with cache := w.cache.filter fun e => baseKeyOf e.1 ≠ bk })
+        ⟨rfl, rfl⟩ (syncKnow_sameReal _ _))
+  | dnsRestore es => exact h.of_same (dnsRestore_sameReal es w)
+  | dnsClose => exact h.of_same ⟨rfl, rfl⟩
+  | probeDone d ans =>
+    show Bounded (probe w d ans)
+    unfold probe
+    have s1 := lookupReal_sameReal w d
+    rcases hl : lookupReal w d with ⟨w1, known, real⟩
+    rw [hl] at s1
+    have h1 : Bounded w1 := h.of_same s1
+    simp only []
+    split
+    · exact h1
+    · split
+      · exact h1
+      · split
+        · exact h1
+        · split
+          · exact h1.of_same ⟨rfl, rfl⟩
+          · exact addVerified_bounded h1 d
+
+theorem Bounded.run {w : World} (h : Bounded w) (es : List Event) : Bounded (run w es) := by
+  induction es generalizing w with
+  | nil => exact h
+  | cons e es ih => rw [run_cons]; exact ih (h.step e)
 
 /-! ## well-keyed histories -/
 
